@@ -31,7 +31,9 @@ struct RaceReport {
 };
 
 struct SchedConfig {
-    int mode = 0; // 0 random walk, 1 explicit switches, 2 no preemption (run to completion in task order), 3 round-robin at every yield point
+    int mode = 0; // 0 random walk, 1 explicit switches, 2 no preemption (run to completion in task order), 3 round-robin at every yield point, 4 PCT
+    int pct_depth = 2; // PCT: number of priority change points + 1
+    uint64_t pct_horizon = 4000; // PCT: change points are drawn from [0, horizon) yield points
     double yield_prob = 0.01;
     uint64_t seed = 1;
     std::vector<Switch> explicit_switches;
